@@ -330,7 +330,9 @@ def r28_dim(repo, sink):
     for per_time in (True, False):
         it = _InfoInterp(repo)
         me = Obj(cls=c, label="SumOverTime")
-        me.fields.update(_per_time=per_time, logger=Logger(label="logger"))
+        from ..absbase import FinamInterp as _FI, seed_from_init
+        seed_from_init(_FI(repo), c, me, {"per_time": per_time})
+        me.fields.update(logger=Logger(label="logger"))
         try:
             out = it.run(gi, [Obj(label="req", fields={"units": Sym("u_req")})], self_obj=me)
         except (Raised, Undecided, AnalysisError) as exc:
